@@ -103,6 +103,7 @@ class Engine:
     self._trace = []
     self._pc = []
     self._fresh = 0
+    self._model = None
 
   # ---- variable creation -------------------------------------------------
   def fresh_name(self, base):
@@ -146,6 +147,12 @@ class Engine:
   def _add(self, e):
     self._pc.append(e)
     self._solver.add(e)
+    if self._model is not None:
+      try:
+        if not z3.is_true(self._model.eval(e, model_completion=True)):
+          self._model = None
+      except z3.Z3Exception:
+        self._model = None
 
   # ---- API used by values and harnesses ----------------------------------
   def assume(self, cond):
@@ -180,11 +187,28 @@ class Engine:
       self._trace.append(v)
       self._add(c if v else z3.Not(c))
       return v
-    rt, _ = self._check(c)
-    if rt == 'unsat':
-      rf = 'sat'  # the path condition is satisfiable, so the other side is
+    # one solver call per decision: a cached model of the path condition
+    # tells which side is certainly feasible; only the other side is queried.
+    mt = mf = None
+    hint = None
+    if self._model is not None:
+      try:
+        ev = self._model.eval(c, model_completion=True)
+        hint = True if z3.is_true(ev) else False if z3.is_false(ev) else None
+      except z3.Z3Exception:
+        hint = None
+    if hint is True:
+      rt, mt = 'sat', self._model
+      rf, mf = self._check(z3.Not(c))
+    elif hint is False:
+      rf, mf = 'sat', self._model
+      rt, mt = self._check(c)
     else:
-      rf, _ = self._check(z3.Not(c))
+      rt, mt = self._check(c)
+      if rt == 'unsat':
+        rf = 'sat'  # the path condition is satisfiable, so the other side is
+      else:
+        rf, mf = self._check(z3.Not(c))
     if rt == 'unknown' or rf == 'unknown':
       raise Inconclusive('solver unknown on branch feasibility')
     if rt == 'sat' and rf == 'sat':
@@ -202,6 +226,7 @@ class Engine:
       v = False
     else:
       raise _AbortPath()
+    self._model = mt if v else mf
     self._trace.append(v)
     self._add(c if v else z3.Not(c))
     return v
@@ -364,6 +389,7 @@ class Engine:
                    len(self.inconclusive))
         self._trace = []
         self._pc = []
+        self._model = None
         self._fresh = 0
         self.inputs = {}
         self._solver = (z3.Solver() if self.logic is None
@@ -545,7 +571,7 @@ class SymInt:
       return NotImplemented
     if not (z3.is_int_value(z) and z.as_long() > 0):
       raise Unsupported('SymInt % non-positive-constant')
-    return mkint(self.z % z)
+    return mkint(_reduce_mod(self.z, z.as_long()) % z)
 
   def _cmp(self, o, f):
     z = _zi(o)
@@ -593,6 +619,42 @@ class SymInt:
 
   def __repr__(self):
     return f'SymInt({self.z})'
+
+
+def _linear(z, acc, k=1):
+  """z == const + sum coeff*atom; accumulates into acc {atom|None: coeff}."""
+  if z3.is_int_value(z):
+    acc[None] = acc.get(None, 0) + k * z.as_long()
+  elif z3.is_add(z):
+    for c in z.children():
+      _linear(c, acc, k)
+  elif z3.is_sub(z) and z.num_args() == 2:
+    _linear(z.arg(0), acc, k)
+    _linear(z.arg(1), acc, -k)
+  elif z3.is_mul(z) and z.num_args() == 2 and z3.is_int_value(z.arg(0)):
+    _linear(z.arg(1), acc, k * z.arg(0).as_long())
+  elif z3.is_mul(z) and z.num_args() == 2 and z3.is_int_value(z.arg(1)):
+    _linear(z.arg(0), acc, k * z.arg(1).as_long())
+  else:
+    key = z
+    for a in acc:
+      if a is not None and a.eq(z):
+        key = a
+        break
+    acc[key] = acc.get(key, 0) + k
+
+
+def _reduce_mod(z, m):
+  """An expression congruent to z modulo m with coefficients reduced mod m
+  (multiples of m dropped): keeps mod-queries over small bounded residues."""
+  acc = {}
+  _linear(z3.simplify(z), acc)
+  out = z3.IntVal(acc.pop(None, 0) % m)
+  for a, c in acc.items():
+    c %= m
+    if c:
+      out = out + (a if c == 1 else c * a)
+  return out
 
 
 def mkint(z):
